@@ -1,12 +1,24 @@
-// verif:properties C13 C02
+// verif:properties C13 C02 C10
 package uhppote
 
-import "time"
+import (
+	"os"
+	"time"
+
+	"github.com/uhppoted/uhppote-core/types"
+)
 
 // C13 - the controller system date and time in a status are combined as civil fields in every zone
 // (zone view Z2: a symbolic two-interval zone anchored at the transmitted system date).
 
-func c13Status(iana bool) {
+type c13Zoned struct {
+	id         uint32
+	r          []byte
+	y, mo, d   int
+	hh, mi, ss int
+}
+
+func c13ZonedReply(iana bool) c13Zoned {
 	verifUseSummary("bcd.Decode") // compositional: the contract of bcd.Decode is what C12 proves
 	id := nondetSerial("id")
 	dg := nondetBytes("sys.digits", 12) // YY MM DD HH mm ss
@@ -29,6 +41,12 @@ func c13Status(iana bool) {
 	specPut32(r, 4, id)
 	r[51], r[52], r[53] = dg[0]<<4|dg[1], dg[2]<<4|dg[3], dg[4]<<4|dg[5]
 	r[37], r[38], r[39] = dg[6]<<4|dg[7], dg[8]<<4|dg[9], dg[10]<<4|dg[11]
+	return c13Zoned{id: id, r: r, y: y, mo: mo, d: d, hh: hh, mi: mi, ss: ss}
+}
+
+func c13Status(iana bool) {
+	z := c13ZonedReply(iana)
+	id, r, y, mo, d, hh, mi, ss := z.id, z.r, z.y, z.mo, z.d, z.hh, z.mi, z.ss
 	dr := &vDriver{seq: [][]byte{r}}
 	u := vClient(dr)
 	st, err := u.GetStatus(id)
@@ -50,3 +68,37 @@ func VerifC13_Status_IANA() { c13Status(true) }
 // the same harness under C02: the status system date-time is the protocol decoding of the reply in every zone
 func VerifC02_StatusZoned()      { c13Status(false) }
 func VerifC02_StatusZoned_IANA() { c13Status(true) }
+
+// the same for an event delivered by the listener (Listen has its own copy of the recombination)
+type c13Listener struct {
+	got []types.Status
+}
+
+func (l *c13Listener) OnConnected()            {}
+func (l *c13Listener) OnEvent(s *types.Status) { l.got = append(l.got, *s) }
+func (l *c13Listener) OnError(error) bool      { return true }
+
+func c13Listen(iana bool) {
+	z := c13ZonedReply(iana)
+	d := &vDriver{events: [][]byte{z.r}, async: true}
+	u := vClient(d)
+	l := &c13Listener{}
+	q := make(chan os.Signal, 1)
+	q <- os.Interrupt
+	err := u.Listen(l, q)
+	verifAssert(verifGoroutines() == 0, "Listen: its goroutines have ended") // (natively this also waits for the dispatcher)
+	verifAssert(err == nil && len(l.got) == 1, "Listen: the event is delivered")
+	if len(l.got) == 1 {
+		t := time.Time(l.got[0].SystemDateTime)
+		verifObserve("sys.day", t.Day())
+		verifObserve("sys.hour", t.Hour())
+		verifAssert(t.Year() == z.y && int(t.Month()) == z.mo && t.Day() == z.d, "Listen: the system date-time of an event reports the transmitted calendar day")
+		verifAssert(t.Hour() == z.hh && t.Minute() == z.mi && t.Second() == z.ss, "Listen: the system date-time of an event reports the transmitted time of day")
+	}
+	verifReach("c13.listen")
+}
+
+func VerifC13_Listen()           { c13Listen(false) }
+func VerifC13_Listen_IANA()      { c13Listen(true) }
+func VerifC10_ListenZoned()      { c13Listen(false) }
+func VerifC10_ListenZoned_IANA() { c13Listen(true) }
